@@ -37,8 +37,8 @@ def normal(x, mu=0.1, sigma=1.2):
     return np.exp(-0.5 * ((x - mu) / sigma) ** 2) / np.sqrt(2.0 * np.pi * sigma ** 2)
 
 
-PAR = {"xy": ("a", "b"), "indexed": ("a", "b"), "hist": ("mu", "sigma"), "unbinned": ("mu", "sigma")}
-ALT = {"xy": (1.8, 0.1), "indexed": (1.8, 0.1), "hist": (0.25, 1.05), "unbinned": (0.25, 1.05)}
+PAR = {"xy": ("a", "b"), "indexed": ("a", "b"), "hist": ("mu", "sigma"), "unbinned": ("mu", "sigma"), "hist_ga": ("mu", "sigma"), "hist_np": ("mu", "sigma")}
+ALT = {"xy": (1.8, 0.1), "indexed": (1.8, 0.1), "hist": (0.25, 1.05), "unbinned": (0.25, 1.05), "hist_ga": (0.25, 1.05), "hist_np": (0.25, 1.05)}
 
 
 def construct(kind, backend, data_version=0, dea="nonlinear", container=False):
@@ -48,6 +48,10 @@ def construct(kind, backend, data_version=0, dea="nonlinear", container=False):
         f = IndexedFit(new_data(kind, data_version) if container else (Y if data_version == 0 else Y2), iline, minimizer=backend)
     elif kind == "hist":
         f = HistFit(HistContainer(8, (-3, 3), fill_data=RAW if data_version == 0 else RAW2), normal, minimizer=backend)
+    elif kind == "hist_ga":          # Gaussian approximation of the Poisson likelihood: the cost function object carries a determinant flag of its own
+        f = HistFit(HistContainer(8, (-3, 3), fill_data=RAW if data_version == 0 else RAW2), normal, cost_function="gauss_approximation", minimizer=backend)
+    elif kind == "hist_np":          # constructed from a numpy histogram (heights, edges) instead of a container
+        f = HistFit(np.histogram(RAW if data_version == 0 else RAW2, bins=8, range=(-3, 3)), normal, cost_function="gauss_approximation", minimizer=backend)
     else:
         f = UnbinnedFit(RAW if data_version == 0 else RAW2, normal, minimizer=backend)
     f.dynamic_error_algorithm = dea
@@ -65,8 +69,10 @@ def new_data(kind, version):
         c = kafe2.IndexedContainer(Y2 if version else Y)
         c.add_error(0.35)
         return c
-    if kind == "hist":
+    if kind in ("hist", "hist_ga"):
         return HistContainer(8, (-3, 3), fill_data=RAW2 if version else RAW)
+    if kind == "hist_np":
+        return np.histogram(RAW2 if version else RAW, bins=8, range=(-3, 3))
     return RAW2 if version else RAW
 
 
@@ -120,6 +126,7 @@ OBS = {
     "hist": ["cost_function_value", "model", "data", "data_error", "model_error", "total_error", "data_cov_mat", "model_cov_mat", "total_cov_mat", "ndf", "goodness_of_fit", "parameter_values", "has_errors", "did_fit"],
     "unbinned": ["cost_function_value", "model", "data", "ndf", "parameter_values", "did_fit"],
 }
+OBS["hist_ga"] = OBS["hist_np"] = OBS["hist"]
 RESULT_OBS = ["parameter_errors", "parameter_cov_mat"]
 
 
@@ -223,16 +230,16 @@ def valid(kind, ops):
             return False           # (the ids of the sources inside a replacement container are not known to the sequence)
         if op[0] == "fit" and len(fixed) == 2:
             return False
-        if op[0] == "fit" and kind != "unbinned" and not sources_ok(kind, ops[:ops.index(op) + 1]) and kind != "hist":
+        if op[0] == "fit" and kind != "unbinned" and not sources_ok(kind, ops[:ops.index(op) + 1]) and not kind.startswith("hist"):
             return False
     return True
 
 
 def gen(tier, seed):
     rng = np.random.RandomState(seed)
-    for kind in ("xy", "indexed", "hist", "unbinned"):
+    for kind in ("xy", "indexed", "hist", "unbinned", "hist_ga", "hist_np"):
         menu = op_menu(kind)
-        base = [("add", False, "data", 0, "y" if kind == "xy" else None)] if kind in ("xy", "indexed") else []
+        base = [("add", False, "data", 0, "y" if kind == "xy" else None)] if kind in ("xy", "indexed", "hist_ga", "hist_np") else []
         seqs = []
         seqs += [(m,) for m in menu] + [(m1, m2) for m1 in menu for m2 in menu]
         if tier == "thorough":
